@@ -3,6 +3,7 @@
     flag; TotalMaxMatchCount of search/shards.go:streamSearch) on top of the search-core model of C01. *)
 From ZV Require Import Lib.Base Model.SearchCore Model.SearchLimits Proofs.SearchCoreText Proofs.SearchCoreTree
   Proofs.SearchCoreLoop Proofs.SearchCoreBuild Proofs.SearchCoreSimp Proofs.SearchCoreTop Proofs.SearchLimits.
+From ZV Require Import Model.SearchDeadline Proofs.SearchDeadline.
 From Coq Require Import ZifyBool.
 
 (** 1. The candidates the FileMatch of document k is built from do not depend on which documents the loop visited or
@@ -87,6 +88,37 @@ Theorem C21_total_limit_only_drops_shards : forall (A : Type) (limit inflight : 
 Proof. exact total_stream_whole. Qed.
 Print Assumptions C21_total_limit_only_drops_shards.
 
+(** 8. "A cancelled or timed-out search finishes promptly" (Model/SearchDeadline.v: abstract time; contexts = the
+    instant their Done() fires; streamSearch's derived context; WHICH context the workers hand to searchOneShard is the
+    explicit step [repo_wiring], tied to the code by the context a fake shard receives behind a real shardedSearcher).
+    For every caller context, start instant, MaxWallTime > 0, number of workers, list of shard durations (None = a
+    shard that would run for ever, e.g. one that only returns when its context is done) and EVERY assignment of shards
+    to workers: every worker is done — the search has finished — no later than MaxWallTime after the start. *)
+Theorem C21_timed_out_search_finishes_by_deadline :
+  forall (caller : ctxd) (now mwt : N) (nworkers : nat) (ws : list (option N)) (sched : list nat),
+  mwt <> 0%N ->
+  Forall (fun f => exists t, f = Some t /\ (t <= now + mwt)%N)
+         (pool (shard_ctx repo_wiring caller now mwt) (repeat (Some now) nworkers) ws sched).
+Proof. exact timed_out_search_finishes. Qed.
+Print Assumptions C21_timed_out_search_finishes_by_deadline.
+
+(** ... and no later than the instant the caller's context fires (cancellation or the caller's own deadline),
+    whatever MaxWallTime is. *)
+Theorem C21_cancelled_search_finishes :
+  forall (cd now mwt : N) (nworkers : nat) (ws : list (option N)) (sched : list nat),
+  Forall (fun f => exists t, f = Some t /\ (t <= N.max now cd)%N)
+         (pool (shard_ctx repo_wiring (Some cd) now mwt) (repeat (Some now) nworkers) ws sched).
+Proof. exact cancelled_search_finishes. Qed.
+Print Assumptions C21_cancelled_search_finishes.
+
+(** If the workers handed the CALLER's context to the shard searches (the derived context reaching only proc.Yield)
+    the statement would be false: a caller without deadline and one shard that waits for its context never finish. *)
+Theorem C21_deadline_with_caller_wiring_refuted :
+  exists (mwt : N) (ws : list (option N)),
+    mwt <> 0%N /\ In None (pool (shard_ctx WCaller None 0 mwt) (repeat (Some 0%N) 2) ws [0; 1]).
+Proof. exists 100%N, [Some 5%N; None]. split; [discriminate|]. vm_compute. right. left. reflexivity. Qed.
+Print Assumptions C21_deadline_with_caller_wiring_refuted.
+
 (* ------------------------------------------------------------------ non-vacuity *)
 Definition alower (x : N) : N := if ((65 <=? x) && (x <=? 90))%N then (x + 32)%N else x.
 Definition aorbit (x : N) : list N :=
@@ -110,3 +142,13 @@ Example ex_shardmax : ex_run {| shard_max := 2; repo_max := 0 |} None = [0; 1]. 
 Example ex_repomax : ex_run {| shard_max := 0; repo_max := 1 |} None = [0; 4]. Proof. vm_compute. reflexivity. Qed.
 Example ex_cancel : ex_run {| shard_max := 0; repo_max := 0 |} (Some 2) = [0; 1]. Proof. vm_compute. reflexivity. Qed.
 Example ex_total : total_stream nat 3 1 0 None [(2, [1; 2]); (2, [3]); (1, [4]); (5, [5])] = [[1; 2]; [3]; [4]]. Proof. vm_compute. reflexivity. Qed.
+(** three workers, five shards of which two would run for ever, MaxWallTime 100 at instant 10: everything is over by 110;
+    the context classes the harness observes *)
+Example ex_deadline_pool :
+  pool (shard_ctx repo_wiring None 10 100) (repeat (Some 10%N) 3) [Some 5; None; Some 300; None; Some 7]%N [0; 1; 2; 0; 0]
+  = [Some 110; Some 110; Some 110]%N.
+Proof. vm_compute. reflexivity. Qed.
+Example ex_ctx_classes :
+  map c21d_ok [(100, None, 2); (0, None, 0); (0, Some 50, 1); (400, Some 100, 1); (100, Some 400, 2); (100, None, 0)]%N
+  = [true; true; true; true; true; false].
+Proof. vm_compute. reflexivity. Qed.
